@@ -365,6 +365,113 @@ func (g *gen) rekeyScenario(w *world) {
 	g.c01probe(w, n.a, n.b)
 }
 
+
+// the wire form of a long-term public key (the private key's serialisation without its last MPI)
+func pubWire(keyIdx int) []byte {
+	k := testKeys[keyIdx]
+	ser := k.Serialize()
+	return append([]byte{}, ser[:len(ser)-4-len(k.X.Bytes())]...)
+}
+
+// A party M that takes part in the DH exchange honestly (so that encryption and MAC of its Reveal
+// Signature message are genuine) but puts an arbitrary block where the signed identity belongs:
+// against a fresh victim and against a victim that is in a session with someone else.
+func (g *gen) forgedBlockScenario(w *world) {
+	version := 2 + g.r.Intn(2)
+	pol := 2
+	q := []byte("?OTRv2?")
+	if version == 3 {
+		pol, q = 4, []byte("?OTRv3?")
+	}
+	established := g.r.Intn(2) == 0
+	var v *party
+	var all []*party
+	var tag uint32
+	if established {
+		n := g.newAkeNet(w, version)
+		n.run(nil)
+		if !n.a.c.IsEncrypted() || !n.b.c.IsEncrypted() || w.dead {
+			return
+		}
+		v = []*party{n.a, n.b}[g.r.Intn(2)]
+		all = n.all
+		w.tick(3600)
+		tag = otr3.VerifSnapshot(v.c).TheirTag // under OTRv3 M has to speak as the instance v is bound to
+	} else {
+		w.parties = map[string]*party{}
+		w.dead = false
+		v = w.newParty(partyCfg{policies: pol, keyIdx: 0, errh: true})
+		all = []*party{v}
+	}
+	m := w.newParty(partyCfg{policies: pol, keyIdx: 2, errh: true, tag: tag})
+	all = append(all, m)
+	_, commit, _, _ := w.recv(m, q)
+	var dhkey, genuine []otr3.ValidMessage
+	for _, x := range commit {
+		_, ts, _, _ := w.recv(v, x)
+		dhkey = append(dhkey, ts...)
+	}
+	for _, x := range dhkey {
+		_, ts, _, _ := w.recv(m, x)
+		genuine = append(genuine, ts...)
+	}
+	if w.dead || len(genuine) == 0 {
+		return
+	}
+	kind := g.r.Intn(9)
+	other := pubWire(1 + g.r.Intn(2)) // the key of somebody else (the victim holds key 0)
+	var block []byte
+	switch kind {
+	case 0: // a complete public key and nothing else
+		block = other
+	case 1: // ... and fewer than four bytes
+		block = append(other, g.bytesN(1+g.r.Intn(3))...)
+	case 2: // unknown key type followed by enough bytes for a key id
+		block = append([]byte{0, byte(1 + g.r.Intn(255))}, g.bytesN(4+g.r.Intn(60))...)
+	case 3: // a DSA key cut short, followed by more bytes
+		block = append(append([]byte{}, other[:2+g.r.Intn(len(other)-2)]...), g.bytesN(4+g.r.Intn(50))...)
+	case 4: // somebody else's key, a key id and 40 bytes that are not their signature
+		block = append(append(append([]byte{}, other...), 0, 0, 0, 1), g.bytesN(40)...)
+	case 5:
+		block = []byte{}
+	case 6:
+		block = g.bytesN(10 + g.r.Intn(300))
+	case 7: // M's own key with a wrong signature
+		block = append(append(pubWire(2), 0, 0, 0, 1), g.bytesN(40)...)
+	default: // somebody else's key, key id, signature cut short
+		block = append(append(append([]byte{}, other...), 0, 0, 0, 1), g.bytesN(g.r.Intn(40))...)
+	}
+	raw, ok := otr3.VerifCraftRevealSig(m.c, block)
+	if !ok {
+		return
+	}
+	g.dist[fmt.Sprintf("ake:forged-block:kind%d:established=%v", kind, established)]++
+	where := fmt.Sprintf("after an authenticated Reveal Signature message with a forged signature block (kind %d, OTRv%d, victim in a session: %v)", kind, version, established)
+	_, _, err, pan := w.recv(v, encodeWire(raw))
+	olog.ok("C13")
+	if pan {
+		olog.viol("C13", "receive-panics:authenticated-signature-block", "Receive panicked "+where)
+		return
+	}
+	olog.ok("C01")
+	if err == nil && kind != 7 {
+		// (kind 7 is rejected as well, it is listed apart only because the key is the sender's own)
+	}
+	if !established && v.c.IsEncrypted() {
+		olog.viol("C01", "encrypted-by-forged-signature-block", "the victim is encrypted "+where)
+	}
+	g.c01check(w, all, where)
+	// the genuine message afterwards: M is a legitimate (if unwanted) peer with its own key
+	for _, x := range genuine {
+		_, ts, _, _ := w.recv(v, x)
+		for _, y := range ts {
+			w.recv(m, y)
+		}
+	}
+	// (the victim's former peer, if any, is now legitimately left behind: only v and M are compared)
+	g.c01check(w, []*party{v, m}, "after the genuine Reveal Signature message that followed: "+where)
+}
+
 // E holds key 2 and runs two honest library instances, e1 facing A and e2 facing B; besides relaying
 // inside its own sessions it tries to splice messages of one exchange into the other.
 func (g *gen) mitmScenario(w *world, version int) {
@@ -446,6 +553,10 @@ func init() {
 		for i := 0; i < n; i++ {
 			if i%6 == 5 {
 				g.rekeyScenario(w)
+				continue
+			}
+			if i%6 == 3 {
+				g.forgedBlockScenario(w)
 				continue
 			}
 			if rec := g.akeScenario(w, recorded); rec != nil && len(rec) >= 4 {
